@@ -26,6 +26,8 @@ Funding ops (stateless).  Syntax of the pieces:
 * `prepb <nodePubKey> <tx> <hint> <env> <k> (<order> <n> <matched>×n)×k` → whole-batch `PrepChannelFunding`:
   `ok conns=<sorted nodes> n=<registrations> <sorted registrations>` | `err` | `panic`
 * `openb <tx> <hint> <env> <k> (<order> <n> <matched>×n)×k` → whole-batch `BatchChannelSetup`: sorted requests
+* `lreset` | `lprepb …` (as `prepb`, against the shims lnd holds; `… held=<sorted shims>` | `err`) |
+  `lcancel <failing pids,|-> <k> (<order> <n> <matched>×n)×k` → `ok held=…`: re-proposed batches
 * `sidecar <nonce> <ticket>…`                             → order | `err` | `panic`
 * `offer <ticket>`                                        → `offer=<0/1>` (`Manager.OfferSidecar` accepts the offer)
 * `gate <ticket> <order b…> <bidAmt> <minUnits>`          → `gate=<0/1>` (the repaired gate)
@@ -49,6 +51,7 @@ def fmtResp (r : AccResp) : String :=
 
 structure DrvSt where
   exp : Expected := []
+  lnd : LndShims := []
 
 def drvInit : DrvSt := {}
 
@@ -308,6 +311,9 @@ def fmtOpens (qs : List OpenReq) : String :=
     s!"{b01 q.isPrivate}:{b01 q.zeroConf}:{shimCols q.shim}"
   s!"ok n={es.length} {joinOrDash ";" (sortList es)}"
 
+def fmtHeld (l : LndShims) : String :=
+  "held=" ++ joinOrDash ";" (sortList (l.map fun (e : Bytes × Shim) => s!"{hex e.1}:{shimCols e.2}"))
+
 def fundingStep (args : List String) : String :=
   match args with
   | "derive" :: ts =>
@@ -422,6 +428,27 @@ def drvStep (s : DrvSt) (args : List String) : DrvSt × String :=
       let req : AccReq := { pid := pid, pushAmt := push, commitType := ctv, channelFlags := flags, wantsZeroConf := wz }
       (s, fmtResp (acceptChannel s.exp req))
     | _, _, _, _, _ => (s, "bad-op")
+  | ["lreset"] => ({ s with lnd := [] }, "ok")
+  | "lprepb" :: ts =>
+    match pHex ts with
+    | some (npk, ts) =>
+      match pBatchCall ts with
+      | some ((tx, hint, env, es), []) =>
+        match prepBatchLnd env npk es tx hint s.lnd with
+        | .ok st => ({ s with lnd := st.lnd }, fmtPrepOut st.out ++ " " ++ fmtHeld st.lnd)
+        | .err => (s, "err")
+        | .panic => (s, "panic")
+      | _ => (s, "bad-op")
+    | none => (s, "bad-op")
+  | "lcancel" :: fails :: ts =>
+    match parseList "," unhex fails, pNat ts with
+    | some fl, some (k, ts) =>
+      match pRepeat pEntry k ts with
+      | some (es, []) =>
+        let l := cancelPendingFundingShims Pool.Sha256.sha256 es fl s.lnd
+        ({ s with lnd := l }, "ok " ++ fmtHeld l)
+      | _ => (s, "bad-op")
+    | _, _ => (s, "bad-op")
   | _ => (s, fundingStep args)
 
 end Pool.C17
